@@ -19,7 +19,7 @@ RULE = ('terms up to ~40 nodes with heavy variable sharing, strings / partial st
 PARAMS = {'quick': {'n': 5000}, 'thorough': {'n': 200000}}
 MIN_EVAL = {'quick': 40000, 'thorough': 2000000}
 STRATA = ['functor-decompose', 'functor-construct', 'functor-error', 'arg-bound', 'arg-errors', 'univ-decompose', 'univ-construct',
-          'copy_term', 'term_variables', 'ground', 'subsumes_term']
+          'copy_term', 'copy_term-bound-after', 'term_variables', 'ground', 'subsumes_term']
 ASSUMPTIONS = ['attributed variables are not generated here (their copy semantics belong to C26)',
                'only the ISO error cases listed in the rule are asserted']
 
@@ -172,6 +172,27 @@ def gen_cases(rng, i):
         yield 'univ-construct', [], 'R =.. [%s]' % to_text(num), want_val(num)
     elif r == 7:
         yield 'copy_term', pre, 'T = %s, copy_term(T, C), R = r(T, C)' % txt(t), check_copy(t)
+        # variables bound *after* the term was built (difference-list style: a list tail that also occurs
+        # elsewhere is instantiated later); both copy_term/2 and the findall/3 copy must still be variants
+        vs = term_vars(t)
+        if vs:
+            binds = {v: rng.choice([mklist([mkint(2)]), NIL, mkc('h', mkint(2)), mklist([mkatom('x'), mkint(3)]), mkatom('k'), mkvar(7)])
+                     for v in vs if rng.random() < 0.7}
+            if binds:
+                t2 = subst(t, binds)
+                btxt = ', '.join('%s = %s' % (to_text(v), to_text(b)) for v, b in binds.items())
+                yield 'copy_term-bound-after', pre, 'T = %s, %s, copy_term(T, C), R = r(T, C)' % (txt(t), btxt), check_copy(t2)
+                yield 'copy_term-bound-after', pre, 'T = %s, %s, findall(T, true, [C]), R = r(T, C)' % (txt(t), btxt), check_copy(t2)
+        # the same with a partial list whose tail variable is created in the list cell itself
+        k = rng.randint(1, 3)
+        items = [mkint(j) for j in range(k)]
+        shape = rng.choice(['L-T', 'f(L, g(T))', 'f(T, L)', '[L, T]', 'f(L, T, L)'])
+        later = rng.choice([mklist([mkint(9)]), NIL, mkc('h', mkint(2)), mklist([mkint(8), mkint(9)])])
+        full = mklist(items, later)
+        exp = {'L-T': mkc('-', full, later), 'f(L, g(T))': mkc('f', full, mkc('g', later)), 'f(T, L)': mkc('f', later, full),
+               '[L, T]': mklist([full, later]), 'f(L, T, L)': mkc('f', full, later, full)}[shape]
+        goal = 'L = [%s|T], F = %s, T = %s, copy_term(F, C), R = r(F, C)' % (','.join(str(j) for j in range(k)), shape, to_text(later))
+        yield 'copy_term-bound-after', [], goal, check_copy(exp)
     elif r == 8:
         yield 'term_variables', pre, 'T = %s, term_variables(T, Vs), R = r(T, Vs)' % txt(t), check_tv(t)
     elif r == 9:
